@@ -60,6 +60,10 @@ func driveC10(c *Ctx) {
 		for i := 1; i < len(u.Docs); i++ {
 			if c.W(3) == 0 {
 				b := pick(c, badDocs)
+				if c.W(3) == 0 {
+					// the documents that mix drafts are the ones whose handling spans two code sites
+					b = pick(c, badDocs[len(badDocs)-9:len(badDocs)-3])
+				}
 				bad[i] = b.kind
 				u.Docs[i].Text = b.text
 				c.Probe("bad-document:" + b.kind)
